@@ -35,6 +35,10 @@ fn build_options(o: &Value) -> Result<GraphQLClientCodegenOptions, String> {
         opts.set_struct_ident(ident);
         opts.set_operation_name(s.to_owned());
     }
+    if let Some(s) = o.get("struct_name_only").and_then(Value::as_str) {
+        // the library's `struct_name` option by itself (a library caller naming the implementation target; no selection implied)
+        opts.set_struct_name(s.to_owned());
+    }
     match o.get("normalization").and_then(Value::as_str) {
         Some("rust") => opts.set_normalization(Normalization::Rust),
         Some("none") => opts.set_normalization(Normalization::None),
